@@ -295,3 +295,23 @@ def duration_premise(prog: Program, rep: Any) -> None:
             rep.bad("PREMISE-C14", f"{o.rule} {o.instance}", o.where, f"the duration of a listed schedule is computed by a function that violates C14 {o.rule}: {o.why}", key=f"PREMISE-C14|{o.rule}|{o.instance}")
         else:
             rep.undecided("PREMISE-C14", f"{o.rule} {o.instance}", o.where, f"C14 {o.rule} is undecided on this tree, so the duration a listed schedule reports is not established: {o.why}")
+
+
+def gate_premise(prog: Program, rep: Any) -> None:
+    """"Each valid broadcast is delivered once - and nothing else is" rests on the gate that decides what a valid
+    broadcast is: C06's rules R6.1 / R6.2 are re-run on the current tree and what they do not discharge is inherited as
+    rule PREMISE-C06 (a violation stays a violation: a foreign datagram that passes the gate is handed to the callback)."""
+    from .props import c06
+    from .report import DISCHARGED, Report, VIOLATED
+
+    sub = Report("C06", "quick", "proof")
+    c06.run(prog, sub, "quick")
+    rep.rule("PREMISE-C06", "what is delivered is what the gate accepts: the gate is fef0 + one of the three broadcast lengths and rejects silently (C06 R6.1 / R6.2 on this tree)", 1)
+    bad = [o for o in sub.obligations if o.verdict != DISCHARGED and o.rule in ("R6.1", "R6.2")]
+    if not bad:
+        rep.ok("PREMISE-C06", "gate", "src/aioswitcher/bridge.py DatagramParser.is_switcher_originator", "C06 R6.1 / R6.2 discharged")
+    for o in bad[:6]:
+        if o.verdict == VIOLATED:
+            rep.bad("PREMISE-C06", f"{o.rule} {o.instance}", o.where, f"the gate that decides which datagrams reach the callback violates C06 {o.rule}: {o.why}", key=f"PREMISE-C06|{o.rule}|{o.instance}")
+        else:
+            rep.undecided("PREMISE-C06", f"{o.rule} {o.instance}", o.where, f"C06 {o.rule} is undecided on this tree, so which datagrams reach the callback is not established: {o.why}")
